@@ -917,7 +917,8 @@ def compute_average_cell_count(x, normalize):
     if isinstance(normalize, dict):
         return sum(normalize.values()) / n_unique_times
 
-    if isinstance(normalize, (list, ndarray)):
+    if isinstance(normalize, (list, tuple, ndarray)) or hasattr(normalize, "__array__"):
+        # lists, tuples, JAX and NumPy arrays: the same forms _get_target_cell_count indexes
         return arraysum(asarray(normalize)) / len(normalize)
 
     raise ValueError(f"Unrecognized type for 'normalize': {type(normalize)}")
